@@ -145,6 +145,18 @@ Theorem c09_legacy_wrapper_roundtrip :
 Proof. exact legacy_wrapper_roundtrip. Qed.
 Print Assumptions c09_legacy_wrapper_roundtrip.
 
+(* legacy builder: append() refused exactly when offset != 0 and bytes-so-far + message >=
+   batch_size; an accepted append adds exactly the message; metadata = its CRC / size / timestamp *)
+Theorem c09_legacy_size_accounting : forall c buf r, valid_lcfg c ->
+  let after := blen buf + blen (lmsg_of c r) in
+  let refuse := negb (r_offset r =? 0) && (lc_batch_size c <=? after) in
+  lappend c buf r =
+    (if refuse then buf else buf ++ lmsg_of c r,
+     if refuse then None
+     else Some (mkLMeta (r_offset r) (lmsg_crc c r) (blen (lmsg_of c r)) (lmsg_ts c r))).
+Proof. exact legacy_size_accounting. Qed.
+Print Assumptions c09_legacy_size_accounting.
+
 (* ---- MemoryRecords ---------------------------------------------------------------------------- *)
 (* any concatenation of well-formed batches (each with its own magic byte, any mix) followed by an
    admissible partial tail splits into exactly those batches, each tagged with ITS OWN magic, the
